@@ -15,3 +15,14 @@ package selectors
 //@ modifies fields(github.com/oxia-db/oxia/coordinator/selectors/single.Context)
 //@ preserves o.selected, o.Status
 //@ note generic interface: refinement cannot be generated mechanically for its instantiations. finalSelector, lowerestLoadSelector and server (single) are verified against the same postcondition; serverAntiAffinitiesSelector is NOT verified (nested map/set iteration): for it this contract is an assumption
+
+// The ensemble instantiation (Selector[*ensemble.Context, []string]): exactly
+// context.Replicas distinct candidates, or an error. Proved for ensemble.Select, its only
+// implementation.
+//
+//@ func Selector[*ensemble.Context,[]string].Select(recv, o) (res, err)
+//@ trusted
+//@ modifies fields(github.com/oxia-db/oxia/coordinator/selectors/ensemble.Context), fields(github.com/oxia-db/oxia/coordinator/selectors/single.Context)
+//@ ensures err == nil ==> len(res) == old(o.Replicas)
+//@ ensures err == nil ==> forall i int, j int :: 0 <= i && i < j && j < len(res) ==> res[i] != res[j]
+//@ note generic interface: the postcondition is the one proved for ensemble.Select (coordinator/selectors/ensemble); no refinement obligation is generated for instantiations
